@@ -14,7 +14,7 @@ MANIFEST = {
     "engine": "E1-linsys",
     "technique": "explicit-state model checking: two transition tables (real and complex storage) tabulated on all basis states and compared entrywise, detector record maps included",
     "text": "For each scene of the menu (PML/periodic/PEC/PMC face mixes, plane/dipole/TFSF sources, every detector kind) both storage modes are tabulated through the real forward step on every basis state and at every time index for the source offsets; equality of the two tables (real parts equal, imaginary part zero, records equal) decides the property for every real initial field and, by induction over steps, whole runs.",
-    "note": "Quadratic records are compared on basis singles, all pairs of the detector-cell index set and dense probes; values from finite alphabets; float64/complex128.",
+    "note": "Field detectors appear both with a real dtype (the user keeps the default kind of detector when switching storage) and with a complex dtype; quadratic records are compared on basis singles, all pairs of the detector-cell index set and dense probes; values from finite alphabets; float64/complex128.",
 }
 RULE = (
     "case = (faces, source, detector set, materials, grid) from menus with deviation bound; rows = zero + all basis states (E,H,psi) + "
@@ -54,10 +54,10 @@ def sources_for(shape):
 def dets_for(shape):
     nx, ny, nz = shape
     return [
-        ("field+energy", [dict(kind="field", box=[[1, 3], [2, 3], [2, 4]]), dict(kind="energy", box=[[2, 3], [2, 3], [3, 4]])]),
+        ("field+energy", [dict(kind="field", box=[[1, 3], [2, 3], [2, 4]], dtype="f64"), dict(kind="energy", box=[[2, 3], [2, 3], [3, 4]])]),
         ("poynting+phasor", [dict(kind="poynting", box=[[1, 3], [1, 3], [3, 4]], direction="+"), dict(kind="phasor", box=[[2, 3], [1, 3], [2, 3]], wave_characters=WC)]),
         ("closed+phasorpoynting", [dict(kind="closed", box=[[1, 3], [1, 3], [2, 4]]), dict(kind="phasor_poynting", box=[[1, 3], [2, 3], [2, 4]], direction="-", wave_characters=WC, fixed_propagation_axis=1)]),
-        ("field-raw-edge+energy-reduced", [dict(kind="field", box=[[0, 2], [0, ny], [0, 1]], exact_interpolation=False, components=["Ey", "Hz"]), dict(kind="energy", box=[[0, nx], [0, 2], [nz - 2, nz]], reduce_volume=True)]),
+        ("field-raw-edge+energy-reduced", [dict(kind="field", box=[[0, 2], [0, ny], [0, 1]], exact_interpolation=False, components=["Ey", "Hz"], dtype="f64"), dict(kind="energy", box=[[0, nx], [0, 2], [nz - 2, nz]], reduce_volume=True)]),
         ("closedphasor+field-reduced", [dict(kind="closed_phasor", box=[[1, nx - 1], [1, ny - 1], [2, nz - 1]], wave_characters=WC), dict(kind="field", box=[[nx - 2, nx], [ny - 2, ny], [nz - 3, nz]], reduce_volume=True, switch=dict(interval=2))]),
     ]
 
